@@ -40,13 +40,24 @@ pub fn run(cfg: &RunCfg) -> Ctx {
     let mut all = Ctx::new();
     // exhaustive over short scripts: outcomes in {F,O}^<=3 x ops in {Call,Kill}^<=4 x lazy/eager
     let mut scripts: Vec<(bool, Vec<bool>, Vec<Op>)> = Vec::new();
+    // quick: outcomes {F,O}^<=3 x ops {Call,Kill}^<=4 (1800 scripts);
+    // thorough: outcomes {F,O}^<=5 x ops {Call,Kill,TwoCalls}^<=6 (137592 scripts)
+    let (max_o, max_p, alphabet): (usize, usize, &[Op]) = if cfg.thorough { (5, 6, &[Op::Call, Op::Kill, Op::TwoCalls]) } else { (3, 4, &[Op::Call, Op::Kill]) };
     for lazy in [true, false] {
-        for olen in 0..=3usize {
+        for olen in 0..=max_o {
             for obits in 0..(1u32 << olen) {
                 let outcomes: Vec<bool> = (0..olen).map(|i| obits >> i & 1 == 1).collect();
-                for plen in 1..=4usize {
-                    for pbits in 0..(1u32 << plen) {
-                        let ops: Vec<Op> = (0..plen).map(|i| if pbits >> i & 1 == 1 { Op::Kill } else { Op::Call }).collect();
+                for plen in 1..=max_p {
+                    let base = alphabet.len() as u32;
+                    for code in 0..base.pow(plen as u32) {
+                        let mut c = code;
+                        let ops: Vec<Op> = (0..plen)
+                            .map(|_| {
+                                let o = alphabet[(c % base) as usize];
+                                c /= base;
+                                o
+                            })
+                            .collect();
                         scripts.push((lazy, outcomes.clone(), ops));
                     }
                 }
@@ -65,7 +76,7 @@ pub fn run(cfg: &RunCfg) -> Ctx {
         let (lazy, o, p) = sc[idx].clone();
         scenario(rng, ctx, lazy, o, p, 0);
     }));
-    all.merge(par_cases(cfg, "sampled", cfg.n(1200, 16 * 1500), || (), |_, rng, ctx, _| {
+    all.merge(par_cases(cfg, "sampled", cfg.n(1200, 16 * 20_000), || (), |_, rng, ctx, _| {
         let lazy = rng.bool();
         let o: Vec<bool> = (0..rng.urange(0, 8)).map(|_| rng.chance(3, 5)).collect();
         let p: Vec<Op> = (0..rng.urange(1, 10)).map(|_| match rng.below(6) { 0 | 1 => Op::Kill, 2 => Op::TwoCalls, _ => Op::Call }).collect();
